@@ -1131,12 +1131,21 @@ class BuiltinMixin:
         return [(st, VStr(self._str_uf("str_capitalize", sv.t, lambda x: x.capitalize())))]
 
     def m_str_strip(self, st, sv, args, kwargs):
+        if args and not isinstance(args[0], VNone):
+            # strip(chars): a different function of the text (only the given characters are removed)
+            return [(st, VStr(z3.Function("str_strip_chars", S, S, S)(sv.t, self._s(args[0]))))]
         return [(st, VStr(z3.Function("str_strip", S, S)(sv.t)))]
 
     def m_str_lstrip(self, st, sv, args, kwargs):
+        if args and not isinstance(args[0], VNone):
+            # lstrip(chars): a different function of the text (only the given characters are removed)
+            return [(st, VStr(z3.Function("str_lstrip_chars", S, S, S)(sv.t, self._s(args[0]))))]
         return [(st, VStr(z3.Function("str_lstrip", S, S)(sv.t)))]
 
     def m_str_rstrip(self, st, sv, args, kwargs):
+        if args and not isinstance(args[0], VNone):
+            # rstrip(chars): a different function of the text (only the given characters are removed)
+            return [(st, VStr(z3.Function("str_rstrip_chars", S, S, S)(sv.t, self._s(args[0]))))]
         return [(st, VStr(z3.Function("str_rstrip", S, S)(sv.t)))]
 
     def m_str_startswith(self, st, sv, args, kwargs):
